@@ -68,8 +68,7 @@ TStep ==
            \/ ghost /\ ~alive /\ Ev.code = "BUSY" /\ devs' = devs \cup {"Dev_EndBeforeHandle"}
         /\ cached' = ObsStatus(Ev)
         /\ UNCHANGED <<seq, k, i, n, pc, res, stopflag, out, owed, last, fm, starting, runid, stopAt, ghost>>
-     \/ /\ Ev.ev = "end" /\ owed > 0 /\ owed' = owed - 1
-        /\ SameStatus(Ev.cached, cached)
+     \/ /\ Ev.ev = "end" /\ owed > 0 /\ owed' = owed - 1      \* (its poll was the preceding status event of th = seq)
         /\ ghost' = (ghost /\ owed' > 0)
         /\ UNCHANGED <<seq, k, i, n, pc, res, stopflag, out, cached, last, fm, devs, starting, runid, stopAt>>
      \/ /\ Ev.ev = "quiet" /\ pc = "none" /\ owed = 0 /\ starting = "no"     \* all threads are gone
